@@ -852,6 +852,26 @@ def gen_c04(tier, rng):
             tags.add("every-truncation")
         ops.append("dec d pending")
         cases.append(Case("c04", ops, nontrivial=nm > 0, tags=tuple(sorted(tags))))
+    # every SUBSET of the bus-error flags (not left to sampling): all 32 subsets of the five Ethernet error bits, every single CAN / CAN-FD
+    # error bit and a few combinations, each flag value as the only message, as a middle message and with a non-error flag bit next to it
+    ops = []
+    eth_bits = [0x01, 0x02, 0x08, 0x10, 0x20]
+    for sub in range(32):
+        fl = sum(b for i, b in enumerate(eth_bits) if sub >> i & 1)
+        for extra in (0, 0x04, 0xFFC4):
+            m = message(rng.getrandbits(64), rng.getrandbits(32), 0, 0x08, proto.eth_payload(proto.rand_bytes(rng, 20), flags=fl | extra))
+            pre = message(1, 2, 0, 0x05, b"\x01\x02\x03")
+            ops.append(feed(frame_header(1, 7, 1, 9, sub) + m))
+            ops.append(feed(frame_header(1, 7, 1, 9, sub) + pre + m + pre))
+    cases.append(Case("c04", ops + ["dec d pending"], nontrivial=True, tags=("eth-error-flag-subsets",)))
+    ops = []
+    for fd in (False, True):
+        for fl in [1 << i for i in range(16)] + [0x0003, 0x0300, 0x03FF, 0xFC00, 0x8001]:
+            for errpos in (0, 1, 0x0401):
+                body = proto.can_payload(proto.rand_bytes(rng, 8), ident=rng.getrandbits(29), flags=fl, err_pos=errpos, fd=fd)
+                m = message(rng.getrandbits(64), rng.getrandbits(32), 0, 0x02 if fd else 0x01, body)
+                ops.append(feed(frame_header(1, 7, 1, 9, fl & 0xFFFF) + m + message(1, 2, 0, 0x05, b"\x01\x02\x03")))
+    cases.append(Case("c04", ops + ["dec d pending"], nontrivial=True, tags=("can-error-flag-bits",)))
     # structured payloads whose inner blocks end exactly at / one byte before / past the payload end (all prefixes, consistent length)
     cases += prefix_closure_cases(tier, rng, "c04p")
     # every inner 16-bit length field of the status payloads at its extreme values (a count of 0xFFFF padded to even wraps in 16 bits)
